@@ -2,6 +2,7 @@ import LyModel.Ctx.LemmasFinal
 import LyModel.Ctx.LemmasUsable
 import LyModel.Ctx.LemmasLatest
 import LyModel.Ctx.LemmasAmend
+import LyModel.Ctx.LemmasRestore
 import LyModel.Ctx.Examples
 /-!
 # C09 — a failed schema operation leaves the context as it was
@@ -97,7 +98,7 @@ private theorem hash_of_cores {s s' : Ctx} (h : s'.mods.map Mod.core = s.mods.ma
 
 /-- where a failed call ends: nothing was attempted, or forward part + `lys_unres_glob_revert` + `lys_unres_glob_erase` -/
 private theorem run_error {s : Ctx} {op : Op} {e : Nat} {s' : Ctx} (h : run s op = (.error e, s')) :
-    s'.mods = s.mods ∨ s'.mods = (revert (forward op s).2).mods := by
+    s'.mods = s.mods ∨ s'.mods = (revert (restoreFeats s op (forward op s).2)).mods := by
   unfold run at h
   split at h
   · simp only [Prod.mk.injEq] at h; exact Or.inl (h.2 ▸ rfl)
@@ -110,8 +111,13 @@ private theorem run_error {s : Ctx} {op : Op} {e : Nat} {s' : Ctx} (h : run s op
       right
       rw [hf]
       cases op <;> simp only [Prod.mk.injEq] at h <;> (try (rw [← h.2]; rfl))
+      -- `ly_ctx_set_options` is not a call with a `features` argument
+      · rw [← h.2]
+        have : ∀ ex pp, restoreFeats s (.setOpt ex pp) s1 = s1 := by
+          intro ex pp; unfold restoreFeats targetKey; split <;> rfl
+        rw [this]; rfl
       -- `ly_ctx_unset_options` cannot fail
-      simp [forward, modS] at hf
+      · simp [forward, modS] at hf
 
 /-- **C09, the part that holds.**  For every context between two calls, every operation and every failure point:
     after a failed call the context shows the same modules and revisions in the same order, the same implemented flags and
@@ -127,7 +133,7 @@ theorem failed_op_restores_partial (s : Ctx) (op : Op) (e : Nat) (s' : Ctx) (hq 
     refine ⟨fun _ => ⟨by simp [ObsCore, hm], hash_of_cores (by rw [hm])⟩, ⟨default, by simp [ObsExcept, hm]⟩⟩
   · constructor
     · intro hf
-      have h1 := pres_forward_none op hf s (hinv none)
+      have h1 := inv_restoreFeats (op := op) hq.noCreating hq.noImplementing hq.keys (pres_forward_none op hf s (hinv none))
       have h2 := revert_cores hq.noCreating hq.noImplementing hq.lrefs h1
       have h3 : s'.mods.map Mod.core = s.mods.map Mod.core := by
         rw [hm]
@@ -145,7 +151,43 @@ theorem failed_op_restores_partial (s : Ctx) (op : Op) (e : Nat) (s' : Ctx) (hq 
           intro m _
           exact (restoredCore_mask _ k m).symm
         rw [← this]; exact hk
-      exact revert_cores hq.noCreating hq.noImplementing hq.lrefs hk'
+      exact revert_cores hq.noCreating hq.noImplementing hq.lrefs
+        (inv_restoreFeats (op := op) hq.noCreating hq.noImplementing hq.keys hk')
+
+/-- **C09 with F4 repaired (fixes/F4.diff), the statement without exception.**  When `lys_set_implemented`, `lys_parse` and
+    `ly_ctx_load_module` restore the feature state of their module on the error path (`Cfg2.restoreFeats`, read off the source on
+    every run), then for every context between two calls, every operation, EVERY `features` argument and every failure point:
+    the failed call leaves the same modules and revisions in the same order, the same implemented flags, the same value of
+    every feature of every module, and the same module-set hash. -/
+theorem failed_op_restores_fixed (s : Ctx) (op : Op) (e : Nat) (s' : Ctx) (hq : Quiescent s)
+    (hfix : s.cfg2.restoreFeats = true) (hrun : run s op = (.error e, s')) :
+    ObsCore s' = ObsCore s ∧ s'.modulesHash = s.modulesHash := by
+  rcases run_error hrun with hm | hm
+  · exact ⟨by simp [ObsCore, hm], hash_of_cores (by rw [hm])⟩
+  · have h1 := inv_restored op hq.noCreating hq.noImplementing hq.keys hq.flags hfix
+    have h2 := revert_cores hq.noCreating hq.noImplementing hq.lrefs h1
+    have h3 : s'.mods.map Mod.core = s.mods.map Mod.core := by
+      rw [hm]
+      have : ∀ l : List Mod, l.map (coreM none) = l.map Mod.core := fun l =>
+        List.map_congr_left (fun m _ => coreM_none m)
+      rw [← this, ← this]; exact h2
+    exact ⟨obs_of_cores h3, hash_of_cores h3⟩
+
+/-- what both variants give back in full: source, implemented flag, features, resolved imports of every module — with a NULL
+    `features` argument, or with any argument for the code with fixes/F4.diff -/
+theorem failed_op_restores_cores (s : Ctx) (op : Op) (e : Nat) (s' : Ctx) (hq : Quiescent s)
+    (hf : featArg op = none ∨ s.cfg2.restoreFeats = true) (hrun : run s op = (.error e, s')) :
+    s'.mods.map Mod.core = s.mods.map Mod.core := by
+  have hcm : ∀ l : List Mod, l.map (coreM none) = l.map Mod.core := fun l =>
+    List.map_congr_left (fun m _ => coreM_none m)
+  rcases run_error hrun with hm | hm
+  · rw [hm]
+  · rw [hm, ← hcm, ← hcm]
+    rcases hf with h | h
+    · exact revert_cores hq.noCreating hq.noImplementing hq.lrefs
+        (inv_restoreFeats (op := op) hq.noCreating hq.noImplementing hq.keys (pres_forward_none op h s ⟨rfl, hq.keys, hq.flags⟩))
+    · exact revert_cores hq.noCreating hq.noImplementing hq.lrefs
+        (inv_restored op hq.noCreating hq.noImplementing hq.keys hq.flags h)
 
 private theorem untouched_init {s : Ctx} (hq : Quiescent s) :
     Untouched (s.mods.map fun m => (m.key, m.compiled)) [] s := by
@@ -164,8 +206,10 @@ theorem data_stays_usable_partial (s : Ctx) (src : ModSrc) (feats : FeatArg) (e 
   rw [hparse] at h1
   have hf : forward (.parse src feats) s = (.error e, s1) := by
     simp only [forward, bind_run, getS_run, hparse]
+  have hno : restoreFeats s (.parse src feats) s1 = s1 := by
+    simp only [restoreFeats, targetKey, hparse]; split <;> rfl
   have hr : run s (.parse src feats) = (.error e, erase (revert s1)) := by
-    simp only [run, hf]
+    simp only [run, hf, hno]
   rw [hr]
   exact untouched_revert h1
 
@@ -177,8 +221,10 @@ theorem data_stays_usable_partial_load (s : Ctx) (name : Bytes) (rev : Option By
   rw [hparse] at h1
   have hf : forward (.load name rev feats) s = (.error e, s1) := by
     simp only [forward, bind_run, getS_run, hparse]
+  have hno : restoreFeats s (.load name rev feats) s1 = s1 := by
+    simp only [restoreFeats, targetKey, hparse]; split <;> rfl
   have hr : run s (.load name rev feats) = (.error e, erase (revert s1)) := by
-    simp only [run, hf]
+    simp only [run, hf, hno]
   rw [hr]
   exact untouched_revert h1
 
@@ -229,6 +275,14 @@ theorem failed_op_restores_fails :
   have := (h _ _ _ _ hq hr).1
   revert this
   decide +kernel
+
+/-- non-vacuity of `failed_op_restores_fixed`: the F4 witness in a context with the repair — the call fails with LY_EDENIED after
+    `lys_set_features` had enabled `f2` (the forward part ends with `f2` on), and the theorem applies -/
+example : let s := (run (ctx0 [A] false {} { restoreFeats := true }) (.parse A none)).2
+    Quiescent s ∧ s.cfg2.restoreFeats = true ∧ rc (run s (.setImpl (bs "aaa", []) (some [bs "f2"]))).1 = 8 ∧
+      ((forward (.setImpl (bs "aaa", []) (some [bs "f2"])) s).2.mods.any fun m => m.featOn (bs "f2") == some true) = true ∧
+      ObsCore (run s (.setImpl (bs "aaa", []) (some [bs "f2"]))).2 = ObsCore s :=
+  ⟨Quiescent.ofB (by decide +kernel), by decide +kernel, by decide +kernel, by decide +kernel, by decide +kernel⟩
 
 /-- the same through `lys_implement`: a module that is only imported keeps the flipped feature although it is made
     non-implemented again (F4, second form) -/
@@ -383,15 +437,20 @@ theorem amend_arrays_restored (s : Ctx) (op : Op) (e : Nat) (s' : Ctx) (hq : Qui
     have hab0 : AB (s.mods.map Mod.av) s := by
       refine ⟨fun m hm _ => ⟨m.av, List.mem_map_of_mem hm, rfl, [], by simp [Mod.av], nofun⟩,
         fun m hm _ => ⟨m.av, List.mem_map_of_mem hm, rfl, [], by simp [Mod.av], nofun⟩, ha.nodup⟩
-    have hab := presAB_forward op s hab0
-    have hdis : ∀ x ∈ s.mods.map Mod.av, ∀ k ∈ x.2.1 ++ x.2.2, k ∉ (forward op s).2.implementing := by
+    have hk'' := inv_restoreFeats (op := op) hq.noCreating hq.noImplementing hq.keys hk'
+    have hab : AB (s.mods.map Mod.av) (restoreFeats s op (forward op s).2) := by
+      have h0 := presAB_forward op s hab0
+      rcases restoreFeats_cases s op (forward op s).2 with e1 | ⟨k1, m1, _, _, e1⟩ <;> rw [e1]
+      · exact h0
+      · exact h0.upd k1 _ (fun _ => rfl)
+    have hdis : ∀ x ∈ s.mods.map Mod.av, ∀ k ∈ x.2.1 ++ x.2.2, k ∉ (restoreFeats s op (forward op s).2).implementing := by
       intro x hx k hkx hki
       obtain ⟨m, hm0, rfl⟩ := List.mem_map.mp hx
       obtain ⟨x0, hx0, hx0k, hx0i⟩ := ha.refs m hm0 k hkx
       -- `x0` is implemented in `s`; a module in `implementing` shows as not implemented in `restore`
-      have hres := hk'.restore
+      have hres := hk''.restore
       rw [restore_quiescent s hq.noCreating hq.noImplementing] at hres
-      have hmem : coreM (some k0) x0 ∈ restore (some k0) (forward op s).2 := by
+      have hmem : coreM (some k0) x0 ∈ restore (some k0) (restoreFeats s op (forward op s).2) := by
         rw [hres]; exact List.mem_map_of_mem hx0
       unfold restore at hmem
       obtain ⟨m1, hm1, he⟩ := List.mem_map.mp hmem
@@ -399,13 +458,13 @@ theorem amend_arrays_restored (s : Ctx) (op : Op) (e : Nat) (s' : Ctx) (hq : Qui
       have h2 := congrArg Core.key he
       rw [coreM_implemented, hx0i] at h1
       rw [coreM_key, hx0k] at h2
-      have h3 : (Mod.restoredCore (forward op s).2.implementing (some k0) m1).key = m1.key := rfl
+      have h3 : (Mod.restoredCore (restoreFeats s op (forward op s).2).implementing (some k0) m1).key = m1.key := rfl
       rw [h3] at h2
-      have hc : (forward op s).2.implementing.contains m1.key = true := by rw [h2]; simpa using hki
+      have hc : (restoreFeats s op (forward op s).2).implementing.contains m1.key = true := by rw [h2]; simpa using hki
       simp only [Mod.restoredCore, Bool.and_eq_true, Bool.not_eq_true'] at h1
       rw [hc] at h1
       exact absurd h1.2 (by simp)
-    have := revert_av hq.noCreating hq.noImplementing hq.lrefs hq.keys hk' hab hdis
+    have := revert_av hq.noCreating hq.noImplementing hq.lrefs hq.keys hk'' hab hdis
     simp only [Amend, hm]
     exact this
 
@@ -433,6 +492,28 @@ theorem stale_compiled_after_failed_compile :
         | none => false)) = true :=
   let s := runs (ctx0 [A, Bunres, C] true) [.parse A none, .compile, .parse Bunres none, .parse C none]
   ⟨s, 7, (run s .compile).2, run_eq_error (e := 6) (by decide +kernel), by decide +kernel, by decide +kernel⟩
+
+/-- executable form of "the compiled content of every module is what compiling it now gives, and every implemented module is
+    compiled" -/
+def freshB (s : Ctx) : Bool :=
+  s.mods.all fun m => match m.compiled with
+    | some (_, d) => d == s.descOf m
+    | none => !m.implemented
+
+/-- **F380, after the repair** (fixes/F380.diff: `lys_unres_glob_revert` marks every implemented module of the dependency set of a
+    module it makes non-implemented): the same failed `ly_ctx_compile` recompiles `aaa` without the augment of the removed `ccc`;
+    the compiled content of every remaining module is up to date, and that of `aaa` is the one from before the batch. -/
+theorem compiled_restored_after_failed_compile_fixed :
+    let s0 := runs (ctx0 [A, Bunres, C] true {} { revertMarks := true }) [.parse A none, .compile]
+    let s := runs s0 [.parse Bunres none, .parse C none]
+    let s' := (run s .compile).2
+    rc (run s .compile).1 = 7 ∧ freshB s' = true ∧
+      s'.mods.map (fun m => (m.key, m.compiled.map (·.2))) = s0.mods.map (fun m => (m.key, m.compiled.map (·.2))) ∧
+      -- … while in between `aaa` WAS compiled with the augment of `ccc` and its flag unset
+      ((forward .compile s).2.mods.any fun m => m.src.name == bs "aaa" && !m.toCompile && (match m.compiled with
+        | some (_, d) => d.augBy == [bs "ccc"]
+        | none => false)) = true := by
+  refine ⟨by decide +kernel, by decide +kernel, by decide +kernel, by decide +kernel⟩
 
 /-- the compiled content of every module is what compiling it now gives (top-level nodes with their augmenting / deviating
     modules, enabled features, features of used groupings): the state `lys_compile_depset_all` is to establish -/
@@ -507,11 +588,12 @@ theorem imported_rev_restored (s : Ctx) (op : Op) (e : Nat) (s' : Ctx) (hq : Qui
         intro m _
         exact (restoredCore_mask _ k m).symm
       rw [← this]; exact hk
-    have hc := revert_cores hq.noCreating hq.noImplementing hq.lrefs hk'
+    have hc := revert_cores hq.noCreating hq.noImplementing hq.lrefs
+      (inv_restoreFeats (op := op) hq.noCreating hq.noImplementing hq.keys hk')
     rw [← hm] at hc
     have hok : ImpOkL (s'.mods.map Mod.lview) := by
       rw [hm]
-      exact revert_impOk _ (by rw [(cfg_constant s op).2]; exact hcfg)
+      exact revert_impOk _ (by rw [restoreFeats_cfg, (cfg_constant s op).2]; exact hcfg)
     exact impOk_determined (dateless_of_coreM hc) hok himp
 
 /-- non-vacuity: the context of the F132 witness is such a context, and the call fails in it -/
